@@ -606,6 +606,308 @@ def r13_6(ctx: Ctx):
     return obs
 
 
+def r13_8(ctx: Ctx):
+    """R13.8 a direction kept in an object is the problem's own: every attribute a maximize switch reads through `self` is
+    assigned from `<problem>.maximize`, or from a constructor parameter that EVERY construction site in pyhms fills from
+    `<problem>.maximize` (a defaulted / constant direction makes the engine a minimiser for every problem)."""
+    from .common import ctor_arguments
+
+    obs = []
+    n = 0
+    problem_base = ctx.prog.cls("Problem")
+    for ci in ctx.prog.classes.values():
+        if ci.module.name.startswith(NON_DECISION_MODULES):
+            continue
+        if ctx.prog.is_subclass(ci, problem_base):
+            continue  # a problem's `maximize` is the direction itself, not a copy of it
+        read = set()
+        for m in ci.methods.values():
+            sn = m.self_name()
+            if sn is None:
+                continue
+            for x in body_walk(m.node):
+                if isinstance(x, ast.Attribute) and x.attr in ("_maximize", "maximize", "_minimize", "minimize") and isinstance(x.ctx, ast.Load) and is_self_attr(x, None, sn) and not (x.attr == "maximize" and ci.name.endswith("Problem")):
+                    read.add(x.attr)
+        if not read:
+            continue
+        for attr in sorted(read):
+            writes = []
+            for m in ci.methods.values():
+                sn = m.self_name()
+                if sn is None:
+                    continue
+                for y in body_walk(m.node):
+                    if isinstance(y, (ast.Assign, ast.AnnAssign)) and getattr(y, "value", None) is not None:
+                        for t in (y.targets if isinstance(y, ast.Assign) else [y.target]):
+                            if is_self_attr(t, attr, sn):
+                                writes.append((m, y))
+            if not writes:
+                continue  # a property / inherited field: not an object-kept copy
+            n += 1
+            for m, y in writes:
+                v = y.value
+                pol = _reads_maximize(v)
+                if pol and not isinstance(v, ast.Name):
+                    obs.append(ctx.ob("R13.8", m, y, detail=f"{ci.name}.{attr} = `{norm(v)}` (the problem's own direction)", construct=f"{ci.name}.{attr}"))
+                    continue
+                if isinstance(v, ast.Constant):
+                    obs.append(ctx.ob("R13.8", m, y, status=VIOLATION, detail=f"{ci.name}.{attr} is the constant {norm(v)}: the engine decides in one fixed direction whatever the problem's is", construct=f"{ci.name}.{attr}"))
+                    continue
+                if isinstance(v, ast.Name) and m.name == "__init__" and v.id in m.params():
+                    # follow the parameter to every construction site
+                    a = m.node.args
+                    pos = a.posonlyargs + a.args
+                    dmap = dict(zip([x.arg for x in pos][len(pos) - len(a.defaults):], a.defaults)) if a.defaults else {}
+                    dmap.update({k.arg: d for k, d in zip(a.kwonlyargs, a.kw_defaults) if d is not None})
+                    sites = []
+                    for g in ctx.prog.all_functions():
+                        for c in body_walk(g.node):
+                            if isinstance(c, ast.Call) and ctx.prog.resolve_class_expr(c.func, g.module) is ci:
+                                sites.append((g, c))
+                    if not sites:
+                        obs.append(ctx.ob("R13.8", m, y, status=INCONCLUSIVE if v.id in dmap else OK, detail=f"{ci.name}.{attr} comes from constructor parameter `{v.id}`; no construction site in pyhms", construct=f"{ci.name}.{attr}"))
+                    for g, c in sites:
+                        am = ctor_arguments(ctx, c, ci.name)
+                        arg = (am or {}).get(v.id)
+                        if am is None:
+                            st, why = INCONCLUSIVE, "its arguments cannot be mapped"
+                        elif arg is None and v.id in dmap:
+                            st, why = VIOLATION, f"does not pass `{v.id}`, so the default `{norm(dmap[v.id])}` decides the direction: on a {'maximisation' if not (isinstance(dmap[v.id], ast.Constant) and dmap[v.id].value) else 'minimisation'} problem the engine's comparisons point the wrong way"
+                        elif arg is None:
+                            st, why = INCONCLUSIVE, f"does not pass `{v.id}`"
+                        elif isinstance(arg, ast.Constant):
+                            st, why = VIOLATION, f"passes the constant {norm(arg)} as the direction"
+                        elif _reads_maximize(arg) * (1 if "max" in v.id else -1 if "min" in v.id else 0) * (1 if "max" in attr else -1) > 0 and not isinstance(arg, ast.Name):
+                            st, why = OK, f"passes `{norm(arg)}`"
+                        elif _reads_maximize(arg) and not isinstance(arg, ast.Name):
+                            st, why = VIOLATION, f"passes `{norm(arg)}` for `{v.id}`: the direction is inverted"
+                        else:
+                            st, why = INCONCLUSIVE, f"passes `{norm(arg)[:60]}`, not recognisably the problem's direction"
+                        obs.append(ctx.ob("R13.8", g, c, status=st, detail=f"{g.short} builds {ci.name} and {why}" , construct=f"{ci.name}.{attr}:{g.short}"))
+                    continue
+                obs.append(ctx.ob("R13.8", m, y, status=INCONCLUSIVE, detail=f"{ci.name}.{attr} = `{norm(v)[:60]}`: not recognisably the problem's direction", construct=f"{ci.name}.{attr}"))
+    if not obs:
+        obs.append(ctx.ob("R13.8", None, None, subject="pyhms", loc="-", detail="no object keeps its own copy of the optimisation direction: every switch reads the problem's live `maximize`", construct="no-kept-direction"))
+    return obs
+
+
+INDEX_STABLE_MODULES = ("pyhms.demes.single_pop_eas.de", "pyhms.demes.de_deme", "pyhms.demes.shade_deme", "pyhms.demes.cma_deme", "pyhms.demes.local_deme")
+
+
+def r13_9(ctx: Ctx):
+    """R13.9 in the engines whose whole seeded runs must coincide on (f, max) and (-f, min) (DE, SHADE, CMA-ES, local search) a
+    direction switch selects the same individuals IN THE SAME ORDER: taking the head of an ascending order when minimising and
+    its tail when maximising yields the same set mirrored, and the positional / random pick that follows lands on a
+    different individual."""
+    obs = []
+    n = 0
+    for s_ in find_switches(ctx):
+        if not s_.f.module.name.startswith(INDEX_STABLE_MODULES):
+            continue
+        n += 1
+        defs = local_defs(s_.f)
+
+        def arm_expr(arm):
+            if len(arm) != 1:
+                return None
+            a = arm[0]
+            if isinstance(a, ast.Return):
+                a = a.value
+            elif isinstance(a, ast.Assign):
+                a = a.value
+            elif isinstance(a, ast.Expr):
+                a = a.value
+            return a if isinstance(a, ast.expr) else None
+
+        A, B = arm_expr(s_.max_arm), arm_expr(s_.min_arm)
+
+        def slice_kind(e):
+            if isinstance(e, ast.Subscript) and isinstance(e.slice, ast.Slice) and e.slice.step is None:
+                sl = e.slice
+                if sl.lower is None and sl.upper is not None and not (isinstance(sl.upper, ast.UnaryOp) and isinstance(sl.upper.op, ast.USub)):
+                    return "head", canon(e.value, defs), canon(sl.upper, defs)
+                if sl.upper is None and isinstance(sl.lower, ast.UnaryOp) and isinstance(sl.lower.op, ast.USub):
+                    return "tail", canon(e.value, defs), canon(sl.lower.operand, defs)
+            return None
+
+        ka, kb = slice_kind(A) if A is not None else None, slice_kind(B) if B is not None else None
+        if ka and kb and {ka[0], kb[0]} == {"head", "tail"} and ka[1] == kb[1]:
+            obs.append(ctx.ob("R13.9", s_.f, s_.node, status=VIOLATION, detail=f"{s_.f.short}: when maximising the selection is `{norm(A)}`, when minimising `{norm(B)}`: head and tail of ONE ascending order hold the same individuals in mirrored order (best last vs best first), so in this index-stable engine the same random draw / position picks a different individual on (f, max) than on (-f, min)", construct=f"mirrored:{s_.f.short}"))
+        else:
+            obs.append(ctx.ob("R13.9", s_.f, s_.node, detail=f"{s_.f.short}: the arms do not take head and tail of one order", construct=f"order:{s_.f.short}", trivial=True))
+    if n < 3:
+        raise AnalysisError(f"only {n} maximize switches found in the index-stable engines (4 confirmed by hand)")
+    return obs
+
+
+def r13_10(ctx: Ctx):
+    """R13.10 a problem class never hands out a fixed signed infinite value: every `return +/-inf` of a Problem method or
+    property stands under a maximize switch with the opposite sign in the other arm (R13.2 checks the arms). A base-class
+    default such as `worst = +inf` is inherited by every wrapper that does not forward it and is the BEST value when
+    maximising."""
+    from .wrappers import inf_sign
+
+    obs = []
+    base = ctx.prog.cls("Problem")
+    n = 0
+    for ci in ctx.prog.classes.values():
+        if not (ci is base or ctx.prog.is_subclass(ci, base)):
+            continue
+        for m in ci.methods.values():
+            par = parents_map(m.node)
+            for r in body_walk(m.node):
+                if not (isinstance(r, ast.Return) and r.value is not None):
+                    continue
+                for x in ast.walk(r.value):
+                    if not inf_sign(x) or (isinstance(par.get(id(x)), ast.UnaryOp)):
+                        continue
+                    n += 1
+                    # under a maximize switch (conditional expression or if statement)?
+                    q, under = x, False
+                    while q is not None and q is not m.node:
+                        p_ = par.get(id(q))
+                        if isinstance(p_, (ast.IfExp, ast.If)) and q is not p_.test and (_reads_maximize(p_.test) or any(isinstance(y, ast.Attribute) and y.attr in ("maximize", "_maximize") for y in ast.walk(p_.test))):
+                            under = True
+                            break
+                        q = p_
+                    if not under:
+                        users = [c2.name for c2 in ctx.prog.classes.values() if (c2 is ci or ctx.prog.is_subclass(c2, ci)) and not ctx.prog.is_abstract_class(c2) and ctx.prog.lookup_method(c2, m.name) is m]
+                        if not users:
+                            obs.append(ctx.ob("R13.10", m, r, detail=f"{m.short}: fixed `{norm(x)}`, but every concrete problem class of pyhms overrides it", construct=f"{m.short}:inf"))
+                            continue
+                    obs.append(ctx.ob("R13.10", m, r, status=OK if under else VIOLATION, detail=f"{m.short}: the infinite value is chosen by the direction" if under else f"{m.short} returns the fixed value `{norm(x)}` whatever the direction: the problem classes that inherit it ({', '.join(users[:4])}) report, when maximising, the best possible fitness for a solution that was never evaluated", construct=f"{m.short}:inf"))
+    if n < 1:
+        raise AnalysisError("no infinite sentinel found in the problem classes (EvalCutoffProblem.evaluate confirmed by hand)")
+    return obs
+
+
+_NAN_TESTS = {"isnan"}
+_NONFINITE_TESTS = {"isfinite", "isinf", "isneginf", "isposinf"}
+
+
+def r13_7(ctx: Ctx, need: str = "symmetric"):
+    """R13.7 what `worse_than` does before its maximize switch concerns missing values (NaN) only: a guard that looks at the
+    VALUE of a fitness (finite / infinite / beyond a threshold) decides the order of two proper values by something other
+    than their order (need='by-value', C04: the best kept value is then not the reported best); a fitness replaced by a
+    fixed signed stand-in (`inf`) before the switch is the worst value in one direction and the best in the other
+    (both needs: the mirrored problem is decided differently)."""
+    obs = []
+    n = 0
+    for ci in ctx.prog.classes.values():
+        m = ci.methods.get("worse_than")
+        if m is None or not ci.module.name.startswith("pyhms.core.problem"):
+            continue
+        ps = m.params()
+        if len(ps) < 3:
+            continue
+        body = [x for x in m.node.body if not (isinstance(x, ast.Expr) and isinstance(x.value, ast.Constant))]
+        if len(body) == 1 and isinstance(body[0], ast.Raise):
+            continue
+        if len(body) == 1 and isinstance(body[0], ast.Return) and isinstance(body[0].value, ast.Call) and norm(body[0].value.func).endswith(".worse_than"):
+            continue  # a wrapper delegating to the wrapped problem (R16.x follow the delegation)
+        n += 1
+        a, b = ps[1], ps[2]
+        defs = local_defs(m)
+        alias = {k: v[0] for k, v in defs.items() if len(v) == 1 and k not in (a, b) and not isinstance(v[0], ast.AugAssign)}
+
+        def expand(e, depth=0):
+            if isinstance(e, ast.Name) and e.id in alias and depth < 4:
+                return expand(alias[e.id], depth + 1)
+            return e
+
+        def atoms(t):
+            t = expand(t)
+            if isinstance(t, ast.BoolOp):
+                return [y for v in t.values for y in atoms(v)]
+            if isinstance(t, ast.UnaryOp) and isinstance(t.op, ast.Not):
+                return atoms(t.operand)
+            return [t]
+
+        def kind(t):
+            if isinstance(t, ast.Call) and t.args:
+                tail = norm(t.func).split(".")[-1]
+                arg = expand(t.args[0])
+                on_fit = any(isinstance(x, ast.Name) and x.id in (a, b) for x in ast.walk(arg))
+                if tail in _NAN_TESTS and on_fit:
+                    return "nan"
+                if tail in _NONFINITE_TESTS and on_fit:
+                    return "value"
+            if isinstance(t, ast.Compare) and len(t.ops) == 1:
+                l, r = expand(t.left), expand(t.comparators[0])
+                names = lambda e: {x.id for x in ast.walk(e) if isinstance(x, ast.Name) and x.id in (a, b)}  # noqa: E731
+                if isinstance(t.ops[0], (ast.NotEq, ast.Eq)) and canon(l) == canon(r) and names(l):
+                    return "nan"  # x != x
+                one = names(l) | names(r)
+                if len(one) == 1 and (not names(l) or not names(r)) and isinstance(t.ops[0], (ast.Lt, ast.LtE, ast.Gt, ast.GtE, ast.Eq, ast.NotEq)):
+                    other = r if names(l) else l
+                    if _is_signed_constant(other):
+                        return "value"
+            return "?"
+
+        bad_guard = unknown_guard = stand_in = None
+
+        def walk(stmts):
+            nonlocal bad_guard, unknown_guard, stand_in
+            for s_ in stmts:
+                if isinstance(s_, ast.If):
+                    if _reads_maximize(s_.test) or any(isinstance(x, ast.Attribute) and x.attr == "maximize" for x in ast.walk(s_.test)):
+                        continue  # the direction switch itself: R13.2
+                    ks = [(kind(t), t) for t in atoms(s_.test)]
+                    for k, t in ks:
+                        if k == "value" and bad_guard is None:
+                            bad_guard = (s_, t)
+                        elif k == "?" and unknown_guard is None:
+                            unknown_guard = (s_, t)
+                    walk(s_.body)
+                    walk(s_.orelse)
+                elif isinstance(s_, (ast.Assign, ast.AnnAssign)) and getattr(s_, "value", None) is not None:
+                    tg = s_.targets if isinstance(s_, ast.Assign) else [s_.target]
+                    if any(isinstance(t, ast.Name) and t.id in (a, b) for t in tg):
+                        v = s_.value
+                        arms = [v.body, v.orelse] if isinstance(v, ast.IfExp) and not _reads_maximize(v.test) else [v] if not isinstance(v, ast.IfExp) else []
+                        if any(_is_signed_constant(x) for x in arms) and stand_in is None:
+                            stand_in = s_
+                elif isinstance(s_, (ast.For, ast.While, ast.With, ast.Try)):
+                    walk(getattr(s_, "body", []))
+                    walk(getattr(s_, "orelse", []))
+
+        walk(body)
+        # conditional expressions outside statements' tests (e.g. in the returned value)
+        for x in body_walk(m.node):
+            if isinstance(x, ast.IfExp) and not _reads_maximize(x.test) and not any(isinstance(y, ast.Attribute) and y.attr == "maximize" for y in ast.walk(x.test)):
+                for t in atoms(x.test):
+                    k = kind(t)
+                    if k == "value" and bad_guard is None and not any(_is_signed_constant(z) for z in (x.body, x.orelse)):
+                        bad_guard = (x, t)
+        if stand_in is not None:
+            obs.append(ctx.ob("R13.7", m, stand_in, status=VIOLATION, detail=f"{ci.name}.worse_than replaces a fitness by a fixed signed stand-in before the direction switch (`{norm(stand_in)[:90]}`): that value is the worst one when minimising and the BEST one when maximising, so the problem and its mirror image are ordered differently and a missing value can be reported as the best", construct=f"{ci.name}.worse_than:stand-in"))
+        elif bad_guard is not None and need == "by-value":
+            obs.append(ctx.ob("R13.7", m, bad_guard[0], status=VIOLATION, detail=f"{ci.name}.worse_than decides `{norm(bad_guard[1])}` before comparing the two values: a proper (non-NaN) objective value, e.g. an infinite one in the problem's own direction, loses against a worse one, so the reported best is not the best value the objective returned", construct=f"{ci.name}.worse_than:value-guard"))
+        elif unknown_guard is not None and need == "by-value":
+            obs.append(ctx.ob("R13.7", m, unknown_guard[0], status=INCONCLUSIVE, detail=f"{ci.name}.worse_than is guarded by `{norm(unknown_guard[1])[:80]}`, which is neither a NaN test nor the direction switch", construct=f"{ci.name}.worse_than:guard"))
+        else:
+            obs.append(ctx.ob("R13.7", m, m.node, detail=f"{ci.name}.worse_than: only NaN tests precede the direction switch; the compared operands are the arguments", construct=f"{ci.name}.worse_than"))
+    if n < 1:
+        raise AnalysisError("no concrete worse_than implementation found")
+    return obs
+
+
+def _is_signed_constant(e) -> bool:
+    """a fixed non-NaN number: a numeric literal, +/-inf in its spellings, sys.float_info.max, np.finfo(...).max"""
+    if isinstance(e, ast.UnaryOp) and isinstance(e.op, (ast.USub, ast.UAdd)):
+        return _is_signed_constant(e.operand)
+    if isinstance(e, ast.Constant) and isinstance(e.value, (int, float)) and not isinstance(e.value, bool):
+        return e.value == e.value
+    t = norm(e)
+    if t in ("np.inf", "numpy.inf", "math.inf", "inf", "np.Inf", "np.PINF", "np.NINF", "sys.float_info.max", "sys.maxsize"):
+        return True
+    if isinstance(e, ast.Call) and norm(e.func) == "float" and e.args and isinstance(e.args[0], ast.Constant) and isinstance(e.args[0].value, str):
+        return "inf" in e.args[0].value.lower()
+    if isinstance(e, ast.Attribute) and e.attr in ("max", "min") and isinstance(e.value, ast.Call) and norm(e.value.func).endswith("finfo"):
+        return True
+    return False
+
+
 RULES = [
     ("R13.1", r13_1, 14),
     ("R13.2", r13_2_c13, 11),
@@ -613,4 +915,8 @@ RULES = [
     ("R13.4", r13_4, 3),
     ("R13.5", r13_5, 2),
     ("R13.6", r13_6, 1),
+    ("R13.7", r13_7, 1),
+    ("R13.8", r13_8, 1),
+    ("R13.9", r13_9, 3),
+    ("R13.10", r13_10, 1),
 ]
